@@ -216,3 +216,47 @@ func zzC06CaptureWithUnsupportedShare() {
 	}
 	verifReach("end")
 }
+
+//verif:harness C06 capture_with_arbitrary_values unwind=4000 instrs=600000000 paths=80000 wall=900
+//verif:expect end
+//verif:doc A valid capture whose list-valued fields each contain one ARBITRARY 16-bit / 8-bit value besides ordinary ones (a cipher suite, a supported group without share, a signature algorithm, a certificate-compression algorithm, a PSK mode, a point format, one ALPN protocol byte), fingerprinted and re-applied: either an error is returned or the regenerated hello has the same shape (every value kept in place; GREASE values may change to other GREASE values) and the same total length. A value the code special-cases (drops, rewrites, reorders) shows up as a solver counterexample.
+func zzC06CaptureWithArbitraryValues() {
+	suite := verifU16("suite")
+	group := verifU16("group")
+	verifAssume(group != 29)
+	sig := verifU16("sigalg")
+	comp := verifU16("cert-compression")
+	mode := verifU8("psk-mode")
+	pf := verifU8("point-format")
+	ab := verifU8("alpn-byte")
+	var eb []byte
+	eb = append(eb, zzTLV(0, zzVec16(zzCat([]byte{0}, zzVec16([]byte("capture.example")))))...)
+	eb = append(eb, zzTLV(10, zzVec16(zzCat(zzU16(group), []byte{0, 29})))...)
+	eb = append(eb, zzTLV(11, zzVec8([]byte{0, pf}))...)
+	eb = append(eb, zzTLV(13, zzVec16(zzCat([]byte{4, 3}, zzU16(sig))))...)
+	eb = append(eb, zzTLV(16, zzVec16(zzCat(zzVec8([]byte{'h', '2'}), zzVec8([]byte{'x', ab}))))...)
+	eb = append(eb, zzTLV(27, zzVec8(zzCat([]byte{0, 2}, zzU16(comp))))...)
+	eb = append(eb, zzTLV(43, zzVec8([]byte{3, 4}))...)
+	eb = append(eb, zzTLV(45, zzVec8([]byte{1, mode}))...)
+	eb = append(eb, zzTLV(51, zzVec16(zzCat([]byte{0, 29}, zzVec16(make([]byte, 32)))))...)
+	body := zzCat([]byte{3, 3}, make([]byte, 32), zzVec8(make([]byte, 32)), zzVec16(zzCat([]byte{0x13, 0x01}, zzU16(suite), []byte{0xc0, 0x2f})), []byte{1, 0}, zzVec16(eb))
+	capt := zzCat([]byte{1}, zzVec24(body))
+	h1, why := zzRefParseClientHello(capt)
+	verifAssertClass(why == "", "capture-is-valid", why)
+	if why != "" {
+		return
+	}
+	f := &Fingerprinter{AllowBluntMimicry: verifBool("blunt")}
+	uc2, ferr, berr := zzReapply(f, zzRecord(capt), "replayd.example")
+	if ferr != nil || berr != nil {
+		verifReach("end")
+		return
+	}
+	raw2 := uc2.HandshakeState.Hello.Raw
+	h2, why2 := zzRefParseClientHello(raw2)
+	verifAssertClass(why2 == "", "regenerated-hello-parses-strictly", "arbitrary-values:"+why2)
+	if why2 == "" {
+		zzShapeEqual(&h1, &h2, capt, raw2, "arbitrary-values", true)
+	}
+	verifReach("end")
+}
